@@ -27,6 +27,10 @@ structure Shape (nodes : List (Node α)) (r f w : Nat) (ro app : Bool) : Prop wh
   wr : ro = false → f ≤ w ∧ w < nodes.length
   rd : ro = true → f = nodes.length ∧ w = nodes.length
 
+/-- the bytes of the leading flushed entries: what a reader may see now (equal to `flushedBytes`
+when the queue is `readOK`; after an Append there may be flushed entries behind pending ones) -/
+def Q.leadBytes (q : Q α) : List α := (q.items.takeWhile (·.2)).map (·.1)
+
 /-- refinement relation: the model buffer `b` represents the abstract queue `q` -/
 structure R (b : LB α) (q : Q α) : Prop where
   abs : b.abs = q.items
@@ -34,7 +38,7 @@ structure R (b : LB α) (q : Q α) : Prop where
   mlen : b.mallocSize = q.mallocLen
   shape : q.dead = false → Shape b.nodes b.r b.f b.w q.readOnly q.appSinceFlush
   /-- the peek cache holds a prefix of the readable bytes -/
-  cache : q.dead = false → ∀ c cp, b.cachePeek = some (c, cp) → c <+: q.flushedBytes
+  cache : q.dead = false → ∀ c cp, b.cachePeek = some (c, cp) → c <+: q.leadBytes
   flags : q.appSinceFlush = true → q.binSinceFlush = true
 
 /-- does the model's result satisfy what the spec allows? -/
